@@ -3,7 +3,7 @@
 independent confirmation (/tmp/confirm/results/<id>.json, tools/confirm_mutant.sh) succeeded. caught_by is filled by
 tools/mutant_matrix.sh (results in /tmp/confirm/matrix/<id>.<PROP>.rc)."""
 import glob, json, os, re, shutil
-INCS = [("/verif/seeded/_incoming", "", 1), ("/verif/seeded/_incoming2", "b", 2), ("/verif/seeded/_incoming3", "c", 3), ("/verif/seeded/_incoming4", "d", 4)]
+INCS = [("/verif/seeded/_incoming", "", 1), ("/verif/seeded/_incoming2", "b", 2), ("/verif/seeded/_incoming3", "c", 3), ("/verif/seeded/_incoming4", "d", 4), ("/verif/seeded/_incoming5", "e", 5)]
 NEEDS = {
 "C01-1": "callable terminal currents that go from non-zero to exactly zero on every terminal (switched-off pulse; or thermalisation with a ramp starting at 0)",
 "C01-2": "sequence on ONE Device object: make_mesh, terminal_info()/solve, make_mesh with other boundary vertices, solve with non-zero currents",
